@@ -502,6 +502,15 @@ inline py::tuple StructSequenceGetFields(const py::handle& object) {
     return fields;
 }
 
+inline py::list ListCopy(const py::handle& list) {
+    auto copy = py::reinterpret_steal<py::list>(
+        EVALUATE_WITH_LOCK_HELD(PyList_GetSlice(list.ptr(), 0, PyList_GET_SIZE(list.ptr())), list));
+    if (!copy) [[unlikely]] {
+        throw py::error_already_set();
+    }
+    return copy;
+}
+
 inline void TotalOrderSort(py::list& list) {  // NOLINT[runtime/references]
     // NOTE: `list.sort()` may leave the list partially sorted when a comparison fails. Keep a copy of
     // the original order and restore it before each fallback.
